@@ -699,3 +699,15 @@ package raft
 //@   invariant r != nil && r.prs != nil && r.learnerPrs != nil && r.prs != r.learnerPrs && r.id == c.ID && r.raftLog == raftlog && r.readOnly != nil
 //@   invariant len(r.prs) <= len(peers) && len(r.learnerPrs) <= iter && prsOK(r) && lprsOK(r)
 //@   invariant (forall id uint64 :: in(id, r.learnerPrs) ==> !in(id, r.prs)) && (r.isLearner <==> in(r.id, r.learnerPrs))
+
+// ---- follower side of heartbeats and snapshots (C02) ----
+// A heartbeat moves the commit index forward to the leader's value and never backwards (commitTo panics rather than
+// pass the last index); it answers with a MsgHeartbeatResp and keeps term and vote.
+// (handleSnapshot is not under contract: raft.restore, which it calls, is - a snapshot is installed only above the commit index.)
+//@ property C02
+//@ func (r *raft) handleHeartbeat(m pb.Message)
+//@   requires rOK(r)
+//@   ensures r.raftLog.committed == max(old(r.raftLog.committed), m.Commit) && lOK(r.raftLog)
+//@   ensures len(r.msgs) == old(len(r.msgs)) + 1 && r.msgs[len(r.msgs)-1].Type == pb.MsgHeartbeatResp && r.msgs[len(r.msgs)-1].To == m.From
+//@   ensures r.Term == old(r.Term) && r.Vote == old(r.Vote) && r.state == old(r.state) && r.id == old(r.id) && ghost(leaderships, r) == old(ghost(leaderships, r))
+//@   modifies r.raftLog.committed, r.msgs, r.msgs[len(r.msgs):cap(r.msgs)]
